@@ -19,6 +19,8 @@ def run(ctx):
         r6 = ctx.rule("R04.6" + sfx, "too many symbols: code-length entries are counted exactly (literal +1, repeat code + its full run, "
                       "nothing clamped), so the counter == HLIT+HDIST test sees every overshoot", floor=5, config=cfg)
         ic.rule_repeat_run(ctx, cfg, r6)
+        r7 = ctx.rule("R04.7" + sfx, "incomplete-code test: the per-length index of init_tree's counting loop is the code length", floor=1, config=cfg)
+        ic.rule_codelen_index(ctx, cfg, r7)
         if cfg == "H1":
             r5 = ctx.rule("R04.5", "validate_zlib_header = RFC 1950 over all 2^16 (CMF, FLG) pairs x buffer modes", floor=2, config=cfg)
             ic.rule_zlib_header(ctx, cfg, r5)
